@@ -10,7 +10,7 @@ import (
 	"errors"
 	"fmt"
 	"math/big"
-		"sort"
+	"sort"
 	"strings"
 	"time"
 
@@ -70,20 +70,21 @@ type handedMeta struct {
 }
 
 type SimStore struct {
-	plan      Plan
-	truth     interpreter.Balances // owned; handed out as is in shared mode
-	truthSnap string
-	meta      interpreter.AccountsMetadata
-	metaSnap  string
-	static    interpreter.StaticStore
-	n         int
-	requested map[string]map[string]bool
-	Log       []Call
-	handed    []handed
-	handedM   []handedMeta
-	Cancel    context.CancelFunc // set by the harness when the context is cancellable
-	Yield     func(site string)  // cooperative scheduler hook (C11); nil elsewhere
-	Fired     map[string]int
+	plan       Plan
+	truth      interpreter.Balances // owned; handed out as is in shared mode
+	truthSnap  string
+	meta       interpreter.AccountsMetadata
+	metaSnap   string
+	static     interpreter.StaticStore
+	n          int
+	requested  map[string]map[string]bool
+	Log        []Call
+	handed     []handed
+	handedM    []handedMeta
+	Cancel     context.CancelFunc // set by the harness when the context is cancellable
+	Yield      func(site string)  // cooperative scheduler hook (C11); nil elsewhere
+	Nested     func(site string)  // re-entrant use (C11): the store itself runs a script before it answers
+	Fired      map[string]int
 	WorldAsked bool
 }
 
@@ -271,6 +272,9 @@ func (s *SimStore) GetBalances(ctx context.Context, q interpreter.BalanceQuery) 
 	if s.Yield != nil {
 		s.Yield("store.GetBalances")
 	}
+	if s.Nested != nil {
+		s.Nested("store.GetBalances")
+	}
 	call := Call{N: s.n, Kind: "balances", Query: canonQuery(q)}
 	if _, ok := q["world"]; ok {
 		s.WorldAsked = true
@@ -334,6 +338,9 @@ func (s *SimStore) GetAccountsMetadata(ctx context.Context, q interpreter.Metada
 	s.n++
 	if s.Yield != nil {
 		s.Yield("store.GetAccountsMetadata")
+	}
+	if s.Nested != nil {
+		s.Nested("store.GetAccountsMetadata")
 	}
 	call := Call{N: s.n, Kind: "meta", Query: canonQuery(q)}
 	if f, ok := s.fault(); ok {
